@@ -37,6 +37,7 @@ type Pes struct {
 	Data       []byte
 	FirstPkt   int // packet index of the first TS packet
 	DeclLen    int // PES_packet_length field
+	HdrLen     int // bytes between the length field and the payload (3 + PES_header_data_length)
 	Complete   bool
 }
 
@@ -116,7 +117,7 @@ func (d *Demux) Remainder() int { return len(d.buf) }
 func (d *Demux) Flush() {
 	for pid, p := range d.cur {
 		if p != nil {
-			d.finish(p)
+			d.finishPes(p, true)
 			d.cur[pid] = nil
 		}
 	}
@@ -128,12 +129,14 @@ func (d *Demux) Flush() {
 	}
 }
 
-func (d *Demux) finish(p *Pes) {
-	if p.DeclLen != 0 {
-		// PES_packet_length counts the bytes after the length field
-		p.Complete = true
-	} else {
-		p.Complete = true
+func (d *Demux) finish(p *Pes) { d.finishPes(p, false) }
+
+// finishPes: atEnd = the capture ended here (the last PES may simply be cut short by the end of the capture).
+func (d *Demux) finishPes(p *Pes, atEnd bool) {
+	p.Complete = true
+	if p.DeclLen != 0 && p.DeclLen != p.HdrLen+len(p.Data) && !(atEnd && p.HdrLen+len(p.Data) < p.DeclLen) {
+		// PES_packet_length counts the bytes after the length field; 0 (unbounded) is only allowed for video
+		d.PsiErrors = append(d.PsiErrors, fmt.Sprintf("PES starting at packet %d (pid %d) declares PES_packet_length %d but carries %d bytes up to the next unit start", p.FirstPkt, p.PID, p.DeclLen, p.HdrLen+len(p.Data)))
 	}
 	d.Out = append(d.Out, p)
 }
@@ -374,6 +377,7 @@ func (d *Demux) es(p *Packet) error {
 		case 1:
 			return fmt.Errorf("pid %d: PTS_DTS_flags 01 is forbidden", p.PID)
 		}
+		pes.HdrLen = 3 + hlen
 		pes.Data = append(pes.Data, b[9+hlen:]...)
 		d.cur[p.PID] = pes
 		d.Events = append(d.Events, Event{p.Index, "pes", p.PID})
